@@ -23,7 +23,7 @@
 enum { D_BC = 0, D_SBCL = 1, D_SBCU = 2 };
 static const char *dist_name[] = { "bc", "sbcL", "sbcU" };
 
-typedef struct { int dist, M, N, t, P, Q, kq; } mdesc_t;        /* matrix M x N elements, tiles t x t, grid P x Q, k-cyclicity kq (columns) */
+typedef struct { int dist, M, N, t, u, P, Q, kq; } mdesc_t;     /* matrix M x N elements, tiles t x u (mb x nb; a tile code c < 10 is the square c x c, c >= 10 is (c/10) x (c%10)), grid P x Q, k-cyclicity kq (columns) */
 typedef struct { int sr, sc, iY, jY, iT, jT; } win_t;
 typedef struct {
     mdesc_t d;
@@ -57,12 +57,12 @@ static int mat_init(mat_t *a, mdesc_t d, const char *key)
 {
     memset(a, 0, sizeof(*a)); a->d = d;
     if (d.dist == D_BC) {
-        parsec_matrix_block_cyclic_init(&a->bc, PARSEC_MATRIX_DOUBLE, PARSEC_MATRIX_TILE, myrank, d.t, d.t, d.M, d.N, 0, 0, d.M, d.N, d.P, d.Q, 1, d.kq, 0, 0);
+        parsec_matrix_block_cyclic_init(&a->bc, PARSEC_MATRIX_DOUBLE, PARSEC_MATRIX_TILE, myrank, d.t, d.u, d.M, d.N, 0, 0, d.M, d.N, d.P, d.Q, 1, d.kq, 0, 0);
         a->tm = &a->bc.super;
     } else {
         int r = sbc_r_for(world);
         if (!r) return -1;
-        if (PARSEC_SUCCESS != parsec_matrix_sbc_init(&a->sbc, PARSEC_MATRIX_DOUBLE, myrank, d.t, d.t, d.M, d.N, 0, 0, d.M, d.N, world, r,
+        if (PARSEC_SUCCESS != parsec_matrix_sbc_init(&a->sbc, PARSEC_MATRIX_DOUBLE, myrank, d.t, d.u, d.M, d.N, 0, 0, d.M, d.N, world, r,
                                                      d.dist == D_SBCL ? PARSEC_MATRIX_LOWER : PARSEC_MATRIX_UPPER)) return -1;
         a->tm = &a->sbc.super;
     }
@@ -94,16 +94,16 @@ static double *tile_ptr(mat_t *a, int m, int n)
 }
 static void mat_fill(mat_t *a, int sentinel)
 {
-    int t = a->d.t;
+    int t = a->d.t, u = a->d.u;
     for (int n = 0; n < a->tm->lnt; n++) for (int m = 0; m < a->tm->lmt; m++) {
         double *p = tile_ptr(a, m, n); if (!p) continue;
-        for (int j = 0; j < t; j++) for (int i = 0; i < t; i++) p[j * t + i] = sentinel ? SENT(m * t + i, n * t + j) : SRC(m * t + i, n * t + j);
+        for (int j = 0; j < u; j++) for (int i = 0; i < t; i++) p[j * t + i] = sentinel ? SENT(m * t + i, n * u + j) : SRC(m * t + i, n * u + j);
     }
 }
 /* the window must lie in stored tiles of a triangular descriptor (documented restriction, enforced by the wrapper too) */
 static int win_stored(const mdesc_t *d, int size_row, int size_col, int disi, int disj)
 {
-    int ms = disi / d->t, me = (disi + size_row - 1) / d->t, ns = disj / d->t, ne = (disj + size_col - 1) / d->t;
+    int ms = disi / d->t, me = (disi + size_row - 1) / d->t, ns = disj / d->u, ne = (disj + size_col - 1) / d->u;
     if (d->dist == D_SBCL) return ms >= ne;
     if (d->dist == D_SBCU) return ns >= me;
     return 1;
@@ -113,7 +113,7 @@ static int win_stored(const mdesc_t *d, int size_row, int size_col, int disi, in
 typedef struct {
     int ydists[3], nyd, tdists[3], ntd;
     int minm, maxm;
-    int tiles[4], ntiles;
+    int tiles[12], ntiles;
     int kqs[3], nkq;
     int grids[8][2], ngrids;      /* process grids (P,Q) with P*Q == world, used for source and target independently */
     int reduced;                  /* 0: all displacements; 1: displacements restricted to {0, mid, max} in each dimension */
@@ -130,17 +130,17 @@ typedef struct {
 
 static void case_str(char *b, size_t cap, const mdesc_t *y, const mdesc_t *t, const win_t *w)
 {
-    snprintf(b, cap, "np=%d Y=%s:%dx%d/t%d/g%dx%d/k%d T=%s:%dx%d/t%d/g%dx%d/k%d win=%dx%d@Y(%d,%d)->T(%d,%d)", world,
-             dist_name[y->dist], y->M, y->N, y->t, y->P, y->Q, y->kq, dist_name[t->dist], t->M, t->N, t->t, t->P, t->Q, t->kq,
+    snprintf(b, cap, "np=%d Y=%s:%dx%d/t%dx%d/g%dx%d/k%d T=%s:%dx%d/t%dx%d/g%dx%d/k%d win=%dx%d@Y(%d,%d)->T(%d,%d)", world,
+             dist_name[y->dist], y->M, y->N, y->t, y->u, y->P, y->Q, y->kq, dist_name[t->dist], t->M, t->N, t->t, t->u, t->P, t->Q, t->kq,
              w->sr, w->sc, w->iY, w->jY, w->iT, w->jT);
 }
 static int case_parse(const char *s, mdesc_t *y, mdesc_t *t, win_t *w, int *np)
 {
     char yd[16], td[16];
-    int n = sscanf(s, "np=%d Y=%15[^:]:%dx%d/t%d/g%dx%d/k%d T=%15[^:]:%dx%d/t%d/g%dx%d/k%d win=%dx%d@Y(%d,%d)->T(%d,%d)", np,
-                   yd, &y->M, &y->N, &y->t, &y->P, &y->Q, &y->kq, td, &t->M, &t->N, &t->t, &t->P, &t->Q, &t->kq,
+    int n = sscanf(s, "np=%d Y=%15[^:]:%dx%d/t%dx%d/g%dx%d/k%d T=%15[^:]:%dx%d/t%dx%d/g%dx%d/k%d win=%dx%d@Y(%d,%d)->T(%d,%d)", np,
+                   yd, &y->M, &y->N, &y->t, &y->u, &y->P, &y->Q, &y->kq, td, &t->M, &t->N, &t->t, &t->u, &t->P, &t->Q, &t->kq,
                    &w->sr, &w->sc, &w->iY, &w->jY, &w->iT, &w->jT);
-    if (n != 21) return -1;
+    if (n != 23) return -1;
     y->dist = t->dist = -1;
     for (int i = 0; i < 3; i++) { if (!strcmp(yd, dist_name[i])) y->dist = i; if (!strcmp(td, dist_name[i])) t->dist = i; }
     return (y->dist < 0 || t->dist < 0) ? -1 : 0;
@@ -157,11 +157,11 @@ static int run_case(mat_t *Y, mat_t *T, const win_t *w, stat_t *st, char *msg, s
     int rc = parsec_redistribute(parsec, Y->tm, T->tm, w->sr, w->sc, w->iY, w->jY, w->iT, w->jT);
     if (rc != PARSEC_SUCCESS) { snprintf(msg, mcap, "parsec_redistribute refused a valid window (rc=%d)", rc); bad = 1; }
     uint64_t h = 1469598103934665603ULL;
-    int tt = T->d.t, ty = Y->d.t;
+    int tt = T->d.t, tu = T->d.u, ty = Y->d.t, yu = Y->d.u;
     for (int n = 0; n < T->tm->lnt && !bad; n++) for (int m = 0; m < T->tm->lmt && !bad; m++) {
         double *p = tile_ptr(T, m, n); if (!p) continue;
-        for (int j = 0; j < tt && !bad; j++) for (int i = 0; i < tt; i++) {
-            int gi = m * tt + i, gj = n * tt + j;
+        for (int j = 0; j < tu && !bad; j++) for (int i = 0; i < tt; i++) {
+            int gi = m * tt + i, gj = n * tu + j;
             int in = gi >= w->iT && gi < w->iT + w->sr && gj >= w->jT && gj < w->jT + w->sc;
             double exp = in ? SRC(gi - w->iT + w->iY, gj - w->jT + w->jY) : SENT(gi, gj), got = p[j * tt + i];
             elems++;
@@ -176,10 +176,10 @@ static int run_case(mat_t *Y, mat_t *T, const win_t *w, stat_t *st, char *msg, s
     }
     for (int n = 0; n < Y->tm->lnt && !bad; n++) for (int m = 0; m < Y->tm->lmt && !bad; m++) {
         double *p = tile_ptr(Y, m, n); if (!p) continue;
-        for (int j = 0; j < ty && !bad; j++) for (int i = 0; i < ty; i++) {
+        for (int j = 0; j < yu && !bad; j++) for (int i = 0; i < ty; i++) {
             elems++;
-            if (p[j * ty + i] != SRC(m * ty + i, n * ty + j)) {
-                snprintf(msg, mcap, "rank %d: SOURCE element (%d,%d) changed to %g path=%s", myrank, m * ty + i, n * ty + j, p[j * ty + i], last_tp_name);
+            if (p[j * ty + i] != SRC(m * ty + i, n * yu + j)) {
+                snprintf(msg, mcap, "rank %d: SOURCE element (%d,%d) changed to %g path=%s", myrank, m * ty + i, n * yu + j, p[j * ty + i], last_tp_name);
                 bad = 1; break;
             }
         }
@@ -198,9 +198,9 @@ static int run_case(mat_t *Y, mat_t *T, const win_t *w, stat_t *st, char *msg, s
         st->cases++; st->elems += elems;
         int resh = !strcmp(last_tp_name, "redistribute_reshuffle");
         if (resh) st->reshuffle++; else st->general++;
-        int unal = (w->iY % ty) || (w->jY % ty) || (w->iT % tt) || (w->jT % tt);
-        int msrc = ((w->iY + w->sr - 1) / ty > w->iY / ty) || ((w->jY + w->sc - 1) / ty > w->jY / ty);
-        int mtgt = ((w->iT + w->sr - 1) / tt > w->iT / tt) || ((w->jT + w->sc - 1) / tt > w->jT / tt);
+        int unal = (w->iY % ty) || (w->jY % yu) || (w->iT % tt) || (w->jT % tu);
+        int msrc = ((w->iY + w->sr - 1) / ty > w->iY / ty) || ((w->jY + w->sc - 1) / yu > w->jY / yu);
+        int mtgt = ((w->iT + w->sr - 1) / tt > w->iT / tt) || ((w->jT + w->sc - 1) / tu > w->jT / tu);
         st->unaligned += unal; st->multi_src_tiles += msrc; st->multi_tgt_tiles += mtgt;
         if (unal || msrc || mtgt) st->nontrivial++;
         h = (h ^ (uint64_t)resh) * 1099511628211ULL;
@@ -272,8 +272,11 @@ static void run_pair(const box_t *b, int yd, int td, const char *tag)
     for (int ity = 0; ity < b->ntiles && !stop; ity++) for (int itt = 0; itt < b->ntiles && !stop; itt++)
     for (int M = b->minm; M <= b->maxm && !stop; M++) for (int N = b->minm; N <= b->maxm && !stop; N++)
     for (int MR = b->minm; MR <= b->maxm && !stop; MR++) for (int NR = b->minm; NR <= b->maxm && !stop; NR++) {
-        mdesc_t y = { yd, M, N, b->tiles[ity], b->grids[gy][0], b->grids[gy][1], b->kqs[ky] };
-        mdesc_t t = { td, MR, NR, b->tiles[itt], b->grids[gt][0], b->grids[gt][1], b->kqs[kt] };
+#define TM_(c) ((c) < 10 ? (c) : (c) / 10)
+#define TN_(c) ((c) < 10 ? (c) : (c) % 10)
+        mdesc_t y = { yd, M, N, TM_(b->tiles[ity]), TN_(b->tiles[ity]), b->grids[gy][0], b->grids[gy][1], b->kqs[ky] };
+        mdesc_t t = { td, MR, NR, TM_(b->tiles[itt]), TN_(b->tiles[itt]), b->grids[gt][0], b->grids[gt][1], b->kqs[kt] };
+        if ((yd != D_BC && y.t != y.u) || (td != D_BC && t.t != t.u)) continue;      /* rectangular tiles only for 2D block-cyclic descriptors */
         /* non-2DBC descriptors ignore grid and k: enumerate them once */
         if (b->skip_k11 && yd == D_BC && td == D_BC && b->kqs[ky] == 1 && b->kqs[kt] == 1) continue;
         if (yd != D_BC && (gy || ky)) continue;
@@ -341,7 +344,7 @@ int main(int argc, char **argv)
     MPI_Comm_size(MPI_COMM_WORLD, &world); MPI_Comm_rank(MPI_COMM_WORLD, &myrank);
     box_t b; memset(&b, 0, sizeof(b));
     b.nyd = parse_dists("bc", b.ydists); b.ntd = parse_dists("bc", b.tdists);
-    b.minm = 1; b.maxm = 4; b.ntiles = parse_list("1,2,3", b.tiles, 4); b.nkq = parse_list("1", b.kqs, 3);
+    b.minm = 1; b.maxm = 4; b.ntiles = parse_list("1,2,3", b.tiles, 12); b.nkq = parse_list("1", b.kqs, 3);
     b.nshards = 1; b.shard = 0;
     const char *grids = NULL, *json = NULL;
     for (int i = 1; i < argc; i++) {
@@ -349,7 +352,7 @@ int main(int argc, char **argv)
         else if (!strcmp(argv[i], "--tdist") && i + 1 < argc) b.ntd = parse_dists(argv[++i], b.tdists);
         else if (!strcmp(argv[i], "--minm") && i + 1 < argc) b.minm = atoi(argv[++i]);
         else if (!strcmp(argv[i], "--maxm") && i + 1 < argc) b.maxm = atoi(argv[++i]);
-        else if (!strcmp(argv[i], "--tiles") && i + 1 < argc) b.ntiles = parse_list(argv[++i], b.tiles, 4);
+        else if (!strcmp(argv[i], "--tiles") && i + 1 < argc) b.ntiles = parse_list(argv[++i], b.tiles, 12);
         else if (!strcmp(argv[i], "--kq") && i + 1 < argc) b.nkq = parse_list(argv[++i], b.kqs, 3);
         else if (!strcmp(argv[i], "--grids") && i + 1 < argc) grids = argv[++i];
         else if (!strcmp(argv[i], "--reduced")) b.reduced = 1;
